@@ -116,12 +116,12 @@ fn magnitudes() -> Vec<Big> {
     v
 }
 
-struct L1Case {
-    text: String,
-    lit: NumLit,
+pub struct L1Case {
+    pub text: String,
+    pub lit: NumLit,
 }
 
-fn l1_cases() -> Vec<L1Case> {
+pub fn l1_cases() -> Vec<L1Case> {
     let mut out = Vec::new();
     for m in magnitudes() {
         for (prefix, radix, upper) in [("", 10u32, false), ("#d", 10, false), ("#b", 2, false), ("#o", 8, false), ("#x", 16, false), ("#x", 16, true)] {
@@ -154,7 +154,7 @@ fn exps() -> Vec<i64> {
     v
 }
 
-fn l4_cases() -> Vec<L1Case> {
+pub fn l4_cases() -> Vec<L1Case> {
     let ks: Vec<usize> = (1..=40).chain([100, 400]).collect();
     let mut mant: Vec<(String, Option<String>)> = Vec::new();
     for &k in &ks {
